@@ -3,6 +3,9 @@
 #include "../../backend/interpreter/evaluator/functions/generic_instantiation.h"
 #include "../../common/debug.h"
 #include "../../common/debug_messages.h"
+#ifdef CB_VERIF
+#include "../../common/cb_verif_hook.h"
+#endif
 #include "parsers/declaration_parser.h"
 #include "parsers/enum_parser.h"
 #include "parsers/expression_parser.h"
@@ -136,6 +139,10 @@ ASTNode *RecursiveParser::parseProgram() {
     while (!isAtEnd()) {
         debug_msg(DebugMsgId::PARSE_STATEMENT_START, current_token_.line,
                   current_token_.column);
+#ifdef CB_VERIF
+        cb_verif_trace("parse_iter %d %d", current_token_.line,
+                       current_token_.column);
+#endif
         ASTNode *stmt = parseStatement();
         if (stmt != nullptr) {
             debug_msg(DebugMsgId::PARSE_STATEMENT_SUCCESS,
